@@ -190,6 +190,32 @@ def run(prop: str, tier: str, seed: int) -> int:
             n_runs += 2
     rep.family("tsp tour length + move kernels (all i<j incl. last index)", n_runs - n0, n_runs - n0)
 
+    # ---- the solve loops of the TSP EA / FEA themselves: their own scratch arrays (the FEA's frequency table is
+    # indexed with tour lengths up to the upper bound, which constant and clustered matrices attain)
+    n0 = n_runs
+    from .c06 import solve_case
+    for k in range({"quick": 60, "thorough": 400}[tier]):
+        n = rng.randint(4, 12)
+        u = rng.random()
+        if u < 0.4:
+            c = rng.randint(1, 9)
+            M = [[0 if i == j else c for j in range(n)] for i in range(n)]
+        elif u < 0.6:
+            n = rng.choice([4, 6, 8])
+            far, near = rng.randint(5, 9), rng.randint(1, 2)
+            M = [[0 if i == j else (near if (i < n // 2) == (j < n // 2) else far) for j in range(n)] for i in range(n)]
+        else:
+            M = ts.random_matrix(rng, n, rng.choice([1, 2, 5, 1000]), True, zeros=0)
+        inst = ts.make_instance(M)
+        for algo in ("ea", "fea"):
+            sd, budget = rng.randrange(1 << 30), rng.choice([20, 200, 1000])
+            rec = solve_case(f"tsp-solve-{k}-{algo}", M, inst, algo, sd, budget)
+            if rec.pop("_index_error", False):
+                rep.violations.append(core.Verdict(rec["id"], f"index-error:tsp.{algo}1p1_revn.solve",
+                                                   {"M": M, "algo": algo, "seed": sd, "budget": budget}))
+            n_runs += 1
+    rep.family("tsp ea/fea solve loops (constant, clustered, random matrices)", n_runs - n0, n_runs - n0)
+
     # ---- QAP objective
     n0 = n_runs
     from .c09 import mods as qmods
@@ -320,6 +346,11 @@ def replay(prop: str, case: dict) -> dict:
             from .c08 import LenObj
             ErrObj(inst).eval(case["plan"])
             LenObj(inst).eval(case["plan"])
+        elif "M" in case and "algo" in case:
+            from .c06 import solve_case
+            rec = solve_case("replay", case["M"], ts.make_instance(case["M"]), case["algo"], case["seed"], case["budget"])
+            if rec.get("_index_error"):
+                raise IndexError("index error in solve")
         elif "M" in case and "x" in case:
             m = ts.mods()
             inst = ts.make_instance(case["M"])
